@@ -2,7 +2,13 @@
 
 package centrifuge
 
-// Verification harness for C31, package centrifuge part: `websocketTransport.Close`.
+// Verification harness for C31, package centrifuge part: `websocketTransport.Close` and the opening
+// handshake through the real WebsocketHandler on a real HTTP server.
+// `wire comp=0|1 noh1=0|1 raw=<hex> …`: the raw request bytes are written to a TCP connection of an
+// httptest server running NewWebsocketHandler(node, WebsocketConfig{Compression, DisableHTTP1Upgrade})
+// (default origin check); output `status=<code> vh=<0|1> [head=<hex of the 101 response head>]` or
+// `noresponse` (connection closed without a response: net/http recovered a panic), followed by
+// ` #oh=<none|err|hex>` = url.Parse of the first Origin value as the standard library sees it.
 // `tclose <code> <reasonhex>`: a real HTTP server upgrades a raw TCP client, builds the
 // websocketTransport exactly like WebsocketHandler does, calls Close(Disconnect{code, reason})
 // and the client reports every byte it received after the handshake until the server closed
@@ -12,12 +18,15 @@ package centrifuge
 import (
 	"bufio"
 	"bytes"
+	"context"
 	"encoding/hex"
 	"fmt"
 	"io"
+	"log"
 	"net"
 	"net/http"
 	"net/http/httptest"
+	"net/url"
 	"os"
 	"strconv"
 	"strings"
@@ -68,8 +77,101 @@ func TestVerifC31(t *testing.T) {
 	defer srv.Close()
 	addr := strings.TrimPrefix(srv.URL, "http://")
 
+	node, err := New(Config{LogLevel: LogLevelNone})
+	if err != nil {
+		t.Fatal(err)
+	}
+	if err := node.Run(); err != nil {
+		t.Fatal(err)
+	}
+	defer func() { _ = node.Shutdown(context.Background()) }()
+	wireServers := map[string]*httptest.Server{}
+	defer func() {
+		for _, s := range wireServers {
+			s.Close()
+		}
+	}()
+	wire := func(ws []string) string {
+		kv := map[string]string{}
+		for _, w := range ws {
+			if i := strings.IndexByte(w, '='); i > 0 {
+				kv[w[:i]] = w[i+1:]
+			}
+		}
+		raw, err := hex.DecodeString(kv["raw"])
+		if err != nil || len(raw) == 0 {
+			return "bad-op"
+		}
+		key := kv["comp"] + "/" + kv["noh1"]
+		srv := wireServers[key]
+		if srv == nil {
+			srv = httptest.NewUnstartedServer(NewWebsocketHandler(node, WebsocketConfig{
+				Compression: kv["comp"] == "1", DisableHTTP1Upgrade: kv["noh1"] == "1"}))
+			srv.Config.ErrorLog = log.New(io.Discard, "", 0)
+			srv.Start()
+			wireServers[key] = srv
+		}
+		ohs := "none"
+		if pr, err := http.ReadRequest(bufio.NewReader(bytes.NewReader(raw))); err != nil {
+			return "HARNESS-ERROR generated request does not parse: " + err.Error()
+		} else if o := pr.Header["Origin"]; len(o) > 0 {
+			if pu, err := url.Parse(o[0]); err != nil {
+				ohs = "err"
+			} else if pu.Host == "" {
+				ohs = "-"
+			} else {
+				ohs = hex.EncodeToString([]byte(pu.Host))
+			}
+		}
+		tail := " #oh=" + ohs
+		c, err := net.DialTimeout("tcp", strings.TrimPrefix(srv.URL, "http://"), 10*time.Second)
+		if err != nil {
+			return "HARNESS-ERROR dial " + err.Error()
+		}
+		defer c.Close()
+		_ = c.SetDeadline(time.Now().Add(30 * time.Second))
+		if _, err := c.Write(raw); err != nil {
+			return "HARNESS-ERROR write " + err.Error()
+		}
+		var got []byte
+		buf := make([]byte, 4096)
+		for !bytes.Contains(got, []byte("\r\n\r\n")) {
+			n, err := c.Read(buf)
+			got = append(got, buf[:n]...)
+			if err != nil {
+				break
+			}
+		}
+		i := bytes.Index(got, []byte("\r\n\r\n"))
+		if i < 0 {
+			if len(got) == 0 {
+				return "noresponse" + tail
+			}
+			return "HARNESS-ERROR partial response " + strconv.Quote(string(got)) + tail
+		}
+		head := got[:i+4]
+		lines := strings.Split(string(head), "\r\n")
+		parts := strings.SplitN(lines[0], " ", 3)
+		if len(parts) < 2 {
+			return "HARNESS-ERROR status line " + strconv.Quote(lines[0]) + tail
+		}
+		vh := 0
+		for _, l := range lines[1:] {
+			if strings.EqualFold(l, "Sec-Websocket-Version: 13") {
+				vh = 1
+			}
+		}
+		if parts[1] == "101" {
+			return fmt.Sprintf("status=101 vh=%d head=%s%s", vh, hex.EncodeToString(head), tail)
+		}
+		return fmt.Sprintf("status=%s vh=%d%s", parts[1], vh, tail)
+	}
+
 	step := func(line string) string {
 		ws := strings.Fields(line)
+		if len(ws) > 1 && ws[0] == "wire" {
+			return wire(ws[1:])
+		}
 		if len(ws) != 3 || ws[0] != "tclose" {
 			return "bad-op"
 		}
